@@ -21,7 +21,7 @@ from . import c05
 
 PROPERTY_ID = 'C04'
 LEVEL = 'proof'
-BOUNDS = {'vmess': 'VMess jobs with unauthenticated (plain / masked) size fields: at most 2 segments', 'stream': 'genuine stream of K application chunks (quick 2, thorough 3) of arbitrary content, each 1..65535 bytes, plus the protocol handshake',
+BOUNDS = {'vmess': 'VMess jobs: 2 chunks, at most 2 segments in both tiers; the thorough tier adds the unauthenticated-size-field jobs with 2 segments and, for Shadowsocks, 3 chunks and 3 segments', 'stream': 'genuine stream of K application chunks (quick 2, thorough 3) of arbitrary content, each 1..65535 bytes, plus the protocol handshake',
           'segmentation': '1, 2 (quick) and 3 (thorough) consecutive non-empty segments with symbolic cut points (all positions at once); more cuts are outside',
           'loops': 'decode calls per run bounded (reaching the bound is inconclusive)'}
 TRUSTED_BASE = ['rustc MIR printer', 'vf.engine', 'vf.ideal (a genuine ciphertext opens under the right key and nonce, nothing else does)', 'props/wire.py reference layouts (written from the specifications)',
@@ -130,14 +130,14 @@ def jobs(prog, tier):
             for nseg in segs:
                 if tier != 'thorough' and (chunk, padding) == ('Shake', 'Shake') and nseg > 1:
                     continue    # masked size + padding with symbolic cuts: 11 min per job, thorough tier only
-                if chunk != 'Auth' and nseg > 2:
-                    continue    # unauthenticated size fields with two symbolic cuts do not finish within the job cap
+                if nseg > 2:
+                    continue    # VMess jobs: at most two segments (three were not measured to finish within the job cap)
                 js.append(('vmess::decode_payload[%s,%s,%s,%s,segments=%d]' % (sec, chunk, padding, side, nseg), make_vmess_body_job(sec, chunk, padding, side, tier, nseg), 3000))
     for (chunk, padding) in (('Shake', 'Shake'), ('Auth', 'Shake'), ('Plain', 'Empty')):
         for nseg in segs:
             if tier != 'thorough' and (chunk, padding) == ('Shake', 'Shake') and nseg > 1:
                 continue
-            if chunk != 'Auth' and nseg > 2:
+            if nseg > 2:
                 continue
             js.append(('vmess::decode_packet[Aes128Gcm,%s,%s,server,segments=%d]' % (chunk, padding, nseg), make_vmess_body_job('Aes128Gcm', chunk, padding, 'server', tier, nseg, packet=True), 1500))
     js.append(('WebSocketFramed::poll_next', make_ws_job(), 600))
@@ -145,7 +145,7 @@ def jobs(prog, tier):
         for nseg in segs:
             if tier != 'thorough' and chunk != 'Auth' and nseg > 1:
                 continue    # unauthenticated size fields with symbolic cuts: 20 min per job, thorough tier only
-            if chunk != 'Auth' and nseg > 2:
+            if nseg > 2:
                 continue
             js.append(('vmess::ServerAeadCodec[Aes128Gcm,%s,%s,%s,segments=%d]' % (chunk, padding, command, nseg), make_vmess_server_job('Aes128Gcm', chunk, padding, command, tier, nseg), 3000))
     return js
@@ -153,7 +153,7 @@ def jobs(prog, tier):
 
 def make_vmess_body_job(security, chunk, padding, side, tier, nseg, packet=False):
     def job(ctx):
-        K = c05.K_of(tier) if chunk == 'Auth' else 2     # unauthenticated size fields: two chunks in every tier (solver time)
+        K = 2     # two chunks in every tier (three chunks with symbolic cuts were not measured to finish within the job cap)
         ex, p0, keys = c05.vmess_setup(ctx, security, chunk, padding, side, 'exact', 3 * K + 6)
         req, resp = c05.vmess_streams(security, chunk, padding, keys, K)
         genuine = req if side == 'server' else resp
@@ -227,7 +227,7 @@ def exact_authid_contracts(ex, plain, crc, fnv):
 
 def make_vmess_server_job(security, chunk, padding, command, tier, nseg):
     def job(ctx):
-        K = c05.K_of(tier) if chunk == 'Auth' else 2
+        K = 2
         prog = ctx.prog
         ex = vmess_server_exec(ctx, 'exact')
         cmdkey = z3.Array('cmdkey0', BV64, BV8)
